@@ -78,16 +78,76 @@ func writeBearing(c *ssa.CallCommon) (bool, int) {
 		return true, ei
 	}
 	if !c.IsInvoke() {
-		if f := c.StaticCallee(); f != nil && f.Signature.Recv() != nil && isWriterType(f.Signature.Recv().Type()) {
-			return true, ei
+		if f := c.StaticCallee(); f != nil && f.Signature.Recv() != nil {
+			if isWriterType(f.Signature.Recv().Type()) {
+				return true, ei
+			}
+			// a library writer that wraps the output (bufio.NewWriter(w), ...): its Write, Flush and
+			// Close report the failures of the writer underneath
+			if len(c.Args) > 0 && wrapsWriter(c.Args[0], 0) {
+				return true, ei
+			}
 		}
 	}
 	for i := 0; i < sig.Params().Len(); i++ {
 		if isWriterType(sig.Params().At(i).Type()) {
+			// writing into an in-memory buffer cannot fail
+			off := 0
+			if !c.IsInvoke() && sig.Recv() != nil {
+				off = 1
+			}
+			if f := c.StaticCallee(); f != nil && f.Pkg != nil && !an.IsModulePkg(f.Pkg.Pkg) && i+off < len(c.Args) && infallibleWriter(c.Args[i+off]) {
+				continue // a library printing function has no other error to report
+			}
 			return true, ei
 		}
 	}
 	return false, -1
+}
+
+// infallibleWriter: the writer argument is a *strings.Builder or *bytes.Buffer, whose Write
+// methods are documented to always return a nil error.
+func infallibleWriter(v ssa.Value) bool {
+	mi, ok := v.(*ssa.MakeInterface)
+	if !ok {
+		return false
+	}
+	t := mi.X.Type()
+	if pt, ok := t.Underlying().(*types.Pointer); ok {
+		t = pt.Elem()
+	}
+	return isPkgType(t, "strings", "Builder") || isPkgType(t, "bytes", "Buffer")
+}
+
+// wrapsWriter: v is a pointer to a library type that was constructed from an io.Writer
+// (its origin is a call with a writer-typed argument that is not an in-memory buffer).
+func wrapsWriter(v ssa.Value, depth int) bool {
+	if depth > 4 {
+		return false
+	}
+	pt, ok := v.Type().Underlying().(*types.Pointer)
+	if !ok {
+		return false
+	}
+	if n := an.NamedOf(pt.Elem()); n == nil || n.Obj().Pkg() == nil || an.IsModulePkg(n.Obj().Pkg()) {
+		return false
+	}
+	for _, o := range an.Origins(v, an.StepValue) {
+		c := an.CallOf(o)
+		if c == nil {
+			continue
+		}
+		sig := callSig(c)
+		if sig == nil {
+			continue
+		}
+		for i := 0; i < sig.Params().Len() && i < len(c.Args); i++ {
+			if isIOWriter(sig.Params().At(i).Type()) && !infallibleWriter(c.Args[i]) {
+				return true
+			}
+		}
+	}
+	return false
 }
 
 // errorValueOf returns the SSA value holding result ei of the call, or nil if
